@@ -20,7 +20,8 @@ RULE = ("random walks (<= 60 steps quick / <= 240 thorough) over a pool of <= 6 
         "them; key-export histories (search only: ONE VerifyingKey / SigningKey loaded from point, exponent, bytes in 4 encodings, DER, PEM "
         "through bytes / bytearray / memoryview / array buffers; the caller overwrites the buffer; repeated to_string / to_der / "
         "to_pem under varying format and point encoding, pickle, deepcopy, ==, sign, verify, precompute - each output compared with "
-        "a fresh equal key's); every new point object must carry the declared order of the point(s) it was computed from (PointJacobi "
+        "a fresh equal key's); after every step hash() of every live point / key / Public_key object: unhashable, or stable over the object's lifetime "
+        "and consistent with == (set / dict lookups); every new point object must carry the declared order of the point(s) it was computed from (PointJacobi "
         "arithmetic, to_affine, from_affine, copies, a key's point); object turnover (keys / generator-flagged points created, used and dropped in a loop so that addresses are "
         "re-used); distinct = distinct history line; non-trivial = the history mutates hidden state at least once")
 EXTRA_PROPS = ["C19g"]   # RepIndep discharged for Model/Curve.lean from C06/C07 (Proofs/GroupInterface.lean)
@@ -101,6 +102,7 @@ class Walk:
         # equal-but-distinct curve OBJECTS of the walk's curve: declared by a user without the cofactor ("h0"), and a pickled
         # copy ("hp").  Points on them are points of the same curve (CurveFp.__eq__ compares p, a, b): same value semantics.
         self.alt = {"h0": E.CurveFp(p, a, b), "hp": pickle.loads(pickle.dumps(self.fp))}
+        self.hashes = {}     # (pool index, attribute) -> first observed hash, None = unhashable
         self.misdeclared = set()   # pool indices of results whose inherited declared order is not a multiple of their order
         self.ords = []       # per pool object: declared order of a point object (None for others)
         self.kord = {}       # per key pool index: declared order of the point the key was built from
@@ -606,8 +608,46 @@ class Walk:
         return "S,%d,%s" % (obj.privkey.secret_multiplier, f(obj.verifying_key))
 
     # ---- the property, after every step: every observable of every live object equals its value
+    def check_hash(self, live):
+        """hash / set / dict behaviour: every object is either unhashable (TypeError - the case for PointJacobi, Point, the
+        keys and Public_key on the unchanged tree: they define __eq__ without __hash__) or its hash is stable over the
+        object's lifetime and consistent with == (equal values hash equally, so set / dict lookups find them)"""
+        hs = {}
+        for i in live:
+            objs = [("", self.pool[i])]
+            k = self.kind(i)
+            if k == "K":
+                objs.append((".pubkey", self.pool[i].pubkey))
+            for (suffix, obj) in objs:
+                try:
+                    hv = hash(obj)
+                except TypeError:
+                    hv = None
+                key = (i, suffix)
+                if key not in self.hashes:
+                    self.hashes[key] = hv
+                elif self.hashes[key] != hv:
+                    return self.fail("hash(o%d%s) changed during the object's lifetime" % (i, suffix), got=str(hv), expected=str(self.hashes[key]))
+                if hv is not None:
+                    try:
+                        ok = obj in {obj} and {obj: 1}.get(obj) == 1
+                    except Exception:                             # noqa: BLE001
+                        ok = False
+                    if not ok:
+                        return self.fail("o%d%s is not found in a set / dict that contains it" % (i, suffix))
+                    if suffix == "" and k in ("J", "A", "I"):
+                        hs[i] = hv
+        # consistency with ==: hashable point objects denoting the same point of the same curve
+        ids = sorted(hs)
+        for a in ids:
+            for b in ids:
+                if a < b and self.vals[a][1] == self.vals[b][1] and (self.vals[a][1] is None or self.tags[a] == self.tags[b]):
+                    if hs[a] != hs[b] or self.pool[a] not in {self.pool[b]}:
+                        return self.fail("equal points o%d, o%d hash differently: set / dict lookups miss" % (a, b), got=[str(hs[a]), str(hs[b])])
+
     def check_all(self, live):
         E = self.E
+        self.check_hash(live)
         for i in live:
             if self.bad is not None:
                 return
